@@ -24,7 +24,7 @@ V01(o) == IF o.long = 1 THEN VLong(o) ELSE
 
 QueryBad(o, q) == ~IntervalOK(Triples(o.items, q.c), q.s, q.e, q.iv)
 \* (under a position embedding the per-base array would have billions of entries: not requested)
-ValuesBad(o, q) == o.scale = 1 /\ ~ValuesOK(Triples(o.items, q.c), q.s, q.e, q.vals)
+ValuesBad(o, q) == (IF "scale" \in DOMAIN o THEN o.scale = 1 ELSE TRUE) /\ ~ValuesOK(Triples(o.items, q.c), q.s, q.e, q.vals)
 V03(o) == IF o.obs.result # "ok" THEN "not-ok"
           ELSE IF o.obs.unmapped = 1 THEN "coordinate-not-from-input"
           ELSE IF \E k \in 1..Len(o.obs.queries) : QueryBad(o, o.obs.queries[k]) THEN "interval"
